@@ -463,6 +463,31 @@ class Doc:
             self.emit(op='mixed', elem=name, variant='unchecked-inner', target=par, res=rr, rootok=rr['ok'], rooticok=ri['ok'], ownok=True, addok=ra['ok'],
                       insw=[c.name for c in U.get_children(ordered=False)], outw=inner)
 
+        # (c) as (b), but the unchecked child lacks its required attributes: whatever it serialises alone, the checked tree
+        #     around it serialises too (the exemption is the element's, not its position's)
+        req = [an for (an, at, rq) in J['attrs'].get(t, []) if rq and ':' not in an]
+        if req:
+            def c():
+                w = F.word_through(pt, name)
+                P = F.mk(par, bare=True)
+                U = None
+                for k in w:
+                    if k == name and U is None:
+                        cls, value, kwargs, kids = F.plan(name)
+                        U = cls(value, xsd_check=False) if value != '' else cls(xsd_check=False)
+                        P.add_child(U)
+                    else:
+                        P.add_child(F.mk(k))
+                return P, U
+            r0, pu = call(c)
+            if r0['ok'] and pu[1] is not None:
+                P, U = pu
+                ro, _ = call(lambda: U.to_string())
+                rr, text = call(lambda: P.to_string())
+                ri, _ = call(lambda: P.to_string(intelligent_choice=True))
+                self.emit(op='mixed', elem=name, variant='unchecked-inner-noattr', target=par, res=rr, rootok=rr['ok'], rooticok=ri['ok'],
+                          ownok=ro['ok'], addok=True, insw=[], outw=[])
+
     # ---- C16: a subtree serialises to the same content alone as inside its parent, before and after it is mutated -------
     def nested_for(self, name):
         F, B, J = self.F, self.B, self.F.J
